@@ -36,6 +36,18 @@ def sub_mol(ref, nconf, name):
     return m
 
 
+def in_dom(mol, o, entry):
+    """in the property's domain - for the SDF route as the molecule is after RDKit's default hydrogen removal on reading"""
+    if not MG.in_domain(mol, o):
+        return False
+    if entry == "from_sdf":
+        try:
+            return MG.in_domain(Chem.RemoveHs(mol), o)
+        except Exception:  # noqa: BLE001
+            return False
+    return True
+
+
 def fp_params(o, first, all_iters=None):
     p = dict(o)
     p["first"] = first
@@ -75,7 +87,7 @@ class C14(vlib.Check):
             o["level"] = rng.choice([0, 2, 5, -1, None])
             if o["level"] in (-1, None):
                 o["remove_duplicate_substructs"] = True
-            entry = rng.choice(["from_mol", "from_mol", "dict", "dict_all_iters", "from_sdf", "save"])
+            entry = rng.choice(["from_mol", "from_mol", "dict", "dict_all_iters", "from_sdf", "save", "from_mol_all_iters", "select"])
             name = rng.choice(NAMES)
             if entry in ("from_sdf", "save") and name is None:
                 name = "named"
@@ -100,6 +112,17 @@ class C14(vlib.Check):
         e = case["entry"]
         if e == "from_mol":
             return {"list": [(f.name, dump_fp(f)) for f in PL.fprints_from_mol(mol, fprint_params=params)]}
+        if e == "from_mol_all_iters":
+            # all iterations requested and no explicit level: the packaged default level applies and its fingerprints are returned
+            p2 = dict(params, all_iters=True)
+            p2.pop("level")
+            p2["remove_duplicate_substructs"] = True
+            return {"list": [(f.name, dump_fp(f)) for f in PL.fprints_from_mol(mol, fprint_params=p2)]}
+        if e == "select":
+            lvl = 3
+            d = FG.fprints_dict_from_mol(mol, all_iters=True, **dict(params, level=lvl))
+            return {"sel": {str(q): [(f.name, dump_fp(f)) for f in PL.fprints_from_fprints_dict(d, level=q)] for q in (0, 2, 3, -1, 7)},
+                    "default": [(f.name, dump_fp(f)) for f in PL.fprints_from_fprints_dict(d)]}
         if e in ("dict", "dict_all_iters"):
             d = FG.fprints_dict_from_mol(mol, all_iters=(e == "dict_all_iters"), **params)
             return {"dict": {str(k): [(f.name, dump_fp(f)) for f in v] for k, v in sorted(d.items(), key=lambda kv: kv[0])}}
@@ -134,6 +157,8 @@ class C14(vlib.Check):
         if "ok" not in r:
             return r
         out = r["ok"]
+        if "sel" in out:
+            return {"ok": {"n": len(out["default"]), "names": [n for n, _ in out["default"]]}}
         if "list" in out:
             return {"ok": {"n": len(out["list"]), "names": [n for n, _ in out["list"]]}}
         keys = sorted(int(k) for k in out["dict"])
@@ -159,12 +184,12 @@ class C14(vlib.Check):
         if "ok" not in a:
             return a
         o = a["ok"]
-        if case["entry"] in ("from_mol", "from_sdf"):
+        if case["entry"] in ("from_mol", "from_sdf", "from_mol_all_iters", "select"):
             return {"ok": {"n": o["n"], "names": o["names"]}}
         return {"ok": {"n": o["n"], "names": o["names"], "keys": sorted(o["keys"])}}
 
     def compare(self, case, a_impl, a_model):
-        if case["t"] == "entry" and not MG.in_domain(sub_mol(case["ref"], 1, case["name"]), case["opts"]):
+        if case["t"] == "entry" and not in_dom(sub_mol(case["ref"], 1, case["name"]), case["opts"], case["entry"]):
             return None        # no retained heavy atom: outside the quantifier
         return super().compare(case, a_impl, a_model)
 
@@ -198,7 +223,7 @@ class C14(vlib.Check):
             return None
         o = case["opts"]
         mol = sub_mol(case["ref"], case["nconf"], case["name"])
-        if not MG.in_domain(mol, o):
+        if not in_dom(mol, o, case["entry"]):
             return None
         name = case["name"]
         first = case["first"]
@@ -229,6 +254,20 @@ class C14(vlib.Check):
                 if nm != want_names[j]:
                     return {"key": "wrong-name:" + case["entry"], "what": "%s: conformer %d is named %r, expected %r" % (what, j, nm, want_names[j])}
             return None
+        if case["entry"] == "from_mol_all_iters":
+            o = dict(o, remove_duplicate_substructs=True)
+            return check_list(got["list"], FG.LEVEL_DEF, "fprints_from_mol(all_iters, default level)")
+        if "sel" in got:
+            o = dict(o, level=3)
+            for q, want_level in ((0, 0), (2, 2), (3, 3), (-1, 3), (7, 3)):
+                f = check_list(got["sel"][str(q)], want_level, "fprints_from_fprints_dict(level=%d)" % q)
+                if f:
+                    f["key"] = "level-selection:%s" % q
+                    return f
+            f = check_list(got["default"], 3, "fprints_from_fprints_dict()")
+            if f:
+                f["key"] = "level-selection:default"
+            return f
         if "list" in got:
             return check_list(got["list"], lvl, case["entry"])
         d = got["dict"]
